@@ -21,6 +21,10 @@ CLAIMED = {
    text='Machine-checked proof (Lean 4): eval_eq_spec — for EVERY expression tree over the 18 binary and 3 unary operators and the byte/word functions, and every assignment of i64 values or failure to its symbols, the model of Expr::run yields exactly the value of the independent operator table (Spec.eval: exact arithmetic with failure on overflow, division/remainder by zero, shift counts outside 0..63; comparisons/logical ops 0/1; ~ = -a-1; bit operations via the textbook unsigned representation, proven equal to the BitVec-based mirror of the Rust operators), never runs out of fuel (evalWith_total: no fuel exists), results stay in i64; op_table_documented — the precedence!{} block re-extracted from document.rs on every run is the documented table (levels, left associativity, unary tightest and nestable, atom order). Tie: Gen grammar scan + differential run through build_str(\'.dq <expr>\') on the full operator x boundary grid, all operator pairs in both groupings with minimal parentheses, and random trees with symbols/labels/radices/spacing, judged by the Lean spec on the structured tree.',
    note='Trusted: Lean kernel, Spec.eval (hand-written operator table), static scan of the precedence block, model of the peg climbing algorithm tied by correspondence. parse(print(e)) = e as a theorem is not yet proved (staged); the parse side rests on the table obligation plus correspondence. MIN % -1 counted as overflow (decision).',
    technique='Lean 4 theorem (evaluator = operator table, all trees) + kernel-decided operator-table obligation over the re-extracted grammar + differential correspondence', ref='6/C05'),
+ 'C06': dict(
+   text='Machine-checked proof (Lean 4): line_spec / operand_spec — for EVERY operand list (any length, any mix of expressions, symbols, strings), every element width and every context, the model of the data emission (Operand::get_bytes/words/double_words/quad_words and the Vec<Operand> folds) yields exactly the operands\' bytes in source order, each value as its two\'s-complement little-endian bytes of the exact width (independent spec Spec.Data: byte i = floor(v/256^i) mod 256; accepted iff -2^(8w-1) <= v <= 2^(8w)-1, any i64 for .dq; strings = their UTF-8 bytes, only in .db), and fails exactly when one operand must fail; pad_byte (the constant pass 1 appends to an odd flash .db line becomes exactly one zero byte); db_length / word_length (pass-1 size = pass-2 byte count). Tie: differential run over random data programs in flash and EEPROM and the boundary sweep of every width, judged line by line by the Lean spec.',
+   note='Trusted: Lean kernel, Spec.Data, model of directive.rs/pass1/pass2 data paths tied by correspondence; operand evaluation itself is C05.',
+   technique='Lean 4 theorem (induction over operand lists, all widths) + differential correspondence with spec oracle', ref='6/C06'),
  'C07': dict(
    text='Machine-checked proof (Lean 4): hex_roundtrip — for EVERY image of at most 2^32 bytes with arbitrary contents (empty image included) the text the writer model produces splits into lines that all parse as well-formed Intel HEX records under an independent reader that verifies length field and checksum, ends in the single EOF record, and decodes (types 00/01/02/04, segment/linear base) to exactly byte i at address i, nothing else (proof by induction over 16-byte chunks and 64 KiB blocks, core Lean, no finite bound). Tie: write_code_hex / write_eeprom_hex run on every length < 600 and every length within a record of each 64 KiB boundary up to the largest flash of the table; file bytes compared with the model and fed to the same independent reader.',
    note='Trusted: Lean kernel; the ihex crate (a dependency) is modelled, tied by correspondence only; OS file writes assumed faithful; the reader spec (Spec.Hex) is a hand-written statement of the Intel HEX format.',
